@@ -590,6 +590,14 @@ impl CompactThetaSketch {
         }
     }
 
+    /// Theta of an image: a non-zero fraction of `MAX_THETA`. Estimation divides by it.
+    fn check_theta(theta: u64) -> Result<u64, Error> {
+        if theta == 0 || theta > MAX_THETA {
+            return Err(Error::deserial("corrupted: theta is out of range"));
+        }
+        Ok(theta)
+    }
+
     fn read_entries(
         cursor: &mut SketchSlice<'_>,
         num_entries: usize,
@@ -620,9 +628,11 @@ impl CompactThetaSketch {
         cursor
             .read_u32_le()
             .map_err(insufficient_data("<unused_u32_1>"))?;
-        let theta = cursor
-            .read_u64_le()
-            .map_err(insufficient_data("theta_long"))?;
+        let theta = Self::check_theta(
+            cursor
+                .read_u64_le()
+                .map_err(insufficient_data("theta_long"))?,
+        )?;
 
         let empty = num_entries == 0 && theta == MAX_THETA;
         if empty {
@@ -700,9 +710,11 @@ impl CompactThetaSketch {
                 cursor
                     .read_u32_le()
                     .map_err(insufficient_data("<unused_u32>"))?;
-                let theta = cursor
-                    .read_u64_le()
-                    .map_err(insufficient_data("theta_long"))?;
+                let theta = Self::check_theta(
+                    cursor
+                        .read_u64_le()
+                        .map_err(insufficient_data("theta_long"))?,
+                )?;
                 let empty = (num_entries == 0) && (theta == MAX_THETA);
                 let entries = Self::read_entries(&mut cursor, num_entries, theta)?;
                 Ok(Self {
@@ -751,9 +763,11 @@ impl CompactThetaSketch {
                     .read_u32_le()
                     .map_err(insufficient_data("<unused_u32>"))?;
                 if pre_longs > 2 {
-                    theta = cursor
-                        .read_u64_le()
-                        .map_err(insufficient_data("theta_long"))?;
+                    theta = Self::check_theta(
+                        cursor
+                            .read_u64_le()
+                            .map_err(insufficient_data("theta_long"))?,
+                    )?;
                 }
             }
             entries = Self::read_entries(&mut cursor, num_entries as usize, theta)?;
@@ -789,9 +803,11 @@ impl CompactThetaSketch {
             }
         }
         let theta = if pre_longs > 1 {
-            cursor
-                .read_u64_le()
-                .map_err(insufficient_data("theta_long"))?
+            Self::check_theta(
+                cursor
+                    .read_u64_le()
+                    .map_err(insufficient_data("theta_long"))?,
+            )?
         } else {
             MAX_THETA
         };
